@@ -102,6 +102,7 @@ def run(ctx) -> None:
     from . import c19
     ctx.rule("R03.8", "any_iter accepts every combination of (awaitable of) sync / async iterable of (awaitable) items (R19.2, shared)")
     c19.r19_2(Relabel(ctx, "R03.8"))
+    r03_10(ctx)
     ctx.floor("awaitified_calls", 8)
     ctx.floor("awaitify_sites", 10)
     ctx.floor("iterable_params", 25)
@@ -323,6 +324,42 @@ def awaitify_argument(ctx, rid: str, u: Unit, n: Node) -> None:
     ctx.ok(rid, u, f"`{norm(call)}` wraps a user callable (or an asynchronous library default)", line=getattr(call, "lineno", None))
 
 
+def r03_10(ctx) -> None:
+    """The flavours of a user callable (def, async def, partial, callable object, bound method) have one thing in
+    common: they can be called.  Reading any other attribute of it unconditionally (``function.__name__``) singles
+    out the flavours that lack it — a callable object returning a coroutine has no ``__name__``."""
+    from asl.values import roles_of_annotation
+    ctx.rule("R03.10", "no attribute of a user callable is read unconditionally (only calling it, or getattr with a default)")
+    for u in real_units(ctx):
+        callables = {p.arg for p in u.params() if "CALLABLE" in roles_of_annotation(p.annotation)
+                     and not ({"ITERABLE", "ITERATOR"} & roles_of_annotation(p.annotation))}
+        if not callables:
+            continue
+        srcs = {f"{u.short}:{p}" for p in callables}
+        cfg = cfg_of(u)
+        for n in cfg.nodes:
+            if n.kind != "attr" or n.tag or not isinstance(n.ast, ast.Attribute) or not isinstance(n.ast.ctx, ast.Load):
+                continue
+            base = ctx.vals.expr(u, n.ast.value, n)
+            if not any(a[0] == "user" and a[1] in srcs for a in base):
+                continue
+            if n.ast.attr in ("__doc__", "__module__", "__class__", "__call__"):
+                continue  # every object has these (inherited from its class at the latest)
+            ctx.count("callable_attribute_reads")
+            # guarded by an AttributeError handler, or by hasattr on every path?
+            handlers = [h for h in cfg.nodes if h.kind == "handler" and "AttributeError" in norm(h.info.get("type"))]
+            covered = n.exc_succ() is not None and any(find_path(n.exc_succ(), lambda x, h=h: x is h, edge_ok=lambda a, lab, b: lab in ("h", "e")) is not None
+                                                         for h in handlers)
+            guards = {b for b in cfg.nodes if b.kind == "branch" and isinstance(b.ast, ast.Call) and norm(b.ast.func) == "hasattr"
+                      and len(b.ast.args) == 2 and norm(b.ast.args[0]) == norm(n.ast.value)
+                      and isinstance(b.ast.args[1], ast.Constant) and b.ast.args[1].value == n.ast.attr}
+            guarded = bool(guards) and find_path(cfg.entry, lambda x: x is n, edge_ok=lambda a, lab, b: lab not in ("e", "p")
+                                                 and not (a in guards and lab == "t")) is None
+            ctx.check(covered or guarded, "R03.10", u, n.ast,
+                      f"`{norm(n.ast)}` reads an attribute of the user's callable that not every flavour of callable has "
+                      "(callable objects, partials): the flavours that lack it fail with AttributeError", node=n)
+
+
 def _is_awaitify(fv: Val) -> bool:
     return any(a[0] == "libfn" and a[1].endswith("_core.awaitify") for a in fv)
 
@@ -425,6 +462,19 @@ def r03_2(ctx) -> None:
                     bad += 1
                     ctx.fail("R03.2", u, n.ast, "iterable parameter is consumed by a synchronous Python builtin: an "
                              "async iterable argument fails or is handled on a different path than a sync one", node=n)
+        # the truth value / length of a user's iterable exists for sized synchronous containers only: ``all(iterables)``
+        # over the tuple of a ``*iterables`` parameter, ``bool(it)``, ``len(it)``
+        va = u.node.args.vararg
+        if va is not None and "ITERABLE" in roles_of_annotation(va.annotation) and ctx.pkg.canonical(u) not in DIRECT_ITERATION_OK:
+            for n in cfg.nodes:
+                if n.kind != "call" or n.tag:
+                    continue
+                fv = ctx.vals.expr(u, n.ast.func, n)
+                if any(a[0] == "builtin" and a[1] in ("all", "any") for a in fv) and n.ast.args \
+                        and isinstance(n.ast.args[0], ast.Name) and n.ast.args[0].id == va.arg:
+                    bad += 1
+                    ctx.fail("R03.2", u, n.ast, f"`{norm(n.ast)}` tests the truth value of every iterable argument: an empty list is falsy, "
+                             "an empty (async) iterator is not — the flavours of one and the same argument are treated differently", node=n)
         for c in own_nodes(u.node):
             if isinstance(c, ast.Call) and norm(c.func) in ("isinstance", "issubclass") and len(c.args) == 2 \
                     and isinstance(c.args[0], (ast.Name, ast.NamedExpr)):
